@@ -162,4 +162,5 @@ def run(chk, prog, tier):
     mc.check_uf_union(chk, prog, R)
     from . import extent_common
     extent_common.check_scan_extent(chk, prog)
+    extent_common.check_chunk_covers(chk, prog)
     check_uf_table(chk, prog)
